@@ -1,4 +1,367 @@
 package main
 
-func cmdCheck(args []string) int    { return 3 }
-func cmdSelftest(args []string) int { return 3 }
+import (
+	"encoding/json"
+	"flag"
+	"fmt"
+	"os"
+	"path/filepath"
+	"runtime"
+	"sort"
+	"strconv"
+	"strings"
+	"time"
+)
+
+// KnownFinding is an entry of /verif/known_findings.json.
+type KnownFinding struct {
+	Property   string          `json:"property"`
+	Obligation string          `json:"obligation"`
+	Summary    string          `json:"summary"`
+	Fixed      bool            `json:"fixed,omitempty"`
+	Commit     string          `json:"commit,omitempty"`
+	Witness    json.RawMessage `json:"witness,omitempty"`
+	Harness    string          `json:"harness,omitempty"`
+}
+
+func loadKnownFindings(verif string) []KnownFinding {
+	var kf struct {
+		Findings []KnownFinding `json:"findings"`
+	}
+	data, err := os.ReadFile(filepath.Join(verif, "known_findings.json"))
+	if err != nil {
+		return nil
+	}
+	json.Unmarshal(data, &kf)
+	return kf.Findings
+}
+
+type fnEvidence struct {
+	Name        string `json:"name"`
+	File        string `json:"file"`
+	Obligations int    `json:"obligations"`
+	Discharged  int    `json:"discharged"`
+}
+
+// propFuncs returns the contract keys (functions and lemmas) that carry obligations for a property.
+func (e *Engine) propFuncs(prop string) []string {
+	var keys []string
+	for k, f := range e.Contracts.Funcs {
+		if f.Extern {
+			continue
+		}
+		if hasProp(f, prop) {
+			keys = append(keys, k)
+		}
+	}
+	sort.Strings(keys)
+	return keys
+}
+
+func hasProp(f *FuncSpec, prop string) bool {
+	for _, p := range f.Props {
+		if p == prop {
+			return true
+		}
+	}
+	check := func(cs []Clause) bool {
+		for _, c := range cs {
+			for _, p := range c.Props {
+				if p == prop {
+					return true
+				}
+			}
+		}
+		return false
+	}
+	if check(f.Requires) || check(f.Ensures) {
+		return true
+	}
+	for _, l := range f.Loops {
+		if check(l.Invariants) {
+			return true
+		}
+	}
+	for _, a := range f.Asserts {
+		for _, p := range a.Props {
+			if p == prop {
+				return true
+			}
+		}
+	}
+	return false
+}
+
+func oblHasProp(o *Obligation, prop string) bool {
+	for _, p := range o.Props {
+		if p == prop {
+			return true
+		}
+	}
+	return false
+}
+
+type checkOutcome struct {
+	violations []string
+	known      []string
+	undecided  []string
+}
+
+func cmdCheck(args []string) int {
+	fs := flag.NewFlagSet("check", flag.ExitOnError)
+	tier := fs.String("tier", envOr("VERIF_TIER", "quick"), "quick|thorough")
+	var prop string
+	if len(args) > 0 && !strings.HasPrefix(args[0], "-") {
+		prop = args[0]
+		args = args[1:]
+	}
+	fs.Parse(args)
+	if prop == "" && fs.NArg() > 0 {
+		prop = fs.Arg(0)
+	}
+	if prop == "" {
+		usage()
+	}
+	if *tier != "quick" && *tier != "thorough" {
+		*tier = "quick"
+	}
+	seed, _ := strconv.Atoi(envOr("VERIF_SEED", "0"))
+	start := time.Now()
+	verif := envOr("GOVC_VERIF", "/verif")
+	e, err := newEngine("", "")
+	if err != nil {
+		fmt.Printf("UNDECIDED property=%s reason=cannot load /repo: %v\n", prop, err)
+		writeEvidenceUndecided(verif, prop, *tier, seed, start, err.Error())
+		return 3
+	}
+	keys := e.propFuncs(prop)
+	outDir := filepath.Join(verif, "out", prop+"-"+*tier)
+	os.RemoveAll(outDir)
+	os.MkdirAll(outDir, 0o755)
+
+	var all []*Obligation
+	var fnEv []fnEvidence
+	var unsupported []string
+	byFunc := map[string][]*Obligation{}
+	for _, k := range keys {
+		res := e.VerifyFunc(k)
+		for _, u := range res.Unsupported {
+			unsupported = append(unsupported, k+": "+u)
+		}
+		for _, o := range res.Obligations {
+			if oblHasProp(o, prop) {
+				all = append(all, o)
+				byFunc[k] = append(byFunc[k], o)
+			}
+		}
+		fnEv = append(fnEv, fnEvidence{Name: k, File: res.File})
+	}
+	// ground obligations (tables, constants, tags) for this property
+	gobs, gnotes := e.GroundObligations(prop, *tier)
+	for _, o := range gobs {
+		all = append(all, o)
+		byFunc[o.Func] = append(byFunc[o.Func], o)
+	}
+	seenG := map[string]bool{}
+	for _, o := range gobs {
+		if !seenG[o.Func] {
+			seenG[o.Func] = true
+			fnEv = append(fnEv, fnEvidence{Name: o.Func, File: shortPath(o.Pos.Filename)})
+		}
+	}
+
+	timeout := 10
+	if *tier == "thorough" {
+		timeout = 120
+	}
+	sv := &Solver{Dir: outDir, Timeout: timeout, Agreement: *tier == "thorough", Par: runtime.NumCPU(), Prelude: e.Prelude(), QFPrelude: e.QFPrelude(), Seed: seed}
+	sv.SolveAll(all)
+
+	// tally
+	oc := checkOutcome{}
+	nObl, nDis, nCover, nCovered := 0, 0, 0, 0
+	failedByID := map[string][]*Obligation{}
+	var failedOrder []string
+	for _, o := range all {
+		if o.ExpectSat {
+			nCover++
+			if o.Status == "covered" {
+				nCovered++
+			} else {
+				oc.undecided = append(oc.undecided, "vacuity guard: "+o.ID+" is unsatisfiable ("+o.GoalText+")")
+			}
+			continue
+		}
+		nObl++
+		if o.Status == "discharged" {
+			nDis++
+		} else {
+			if _, ok := failedByID[o.ID]; !ok {
+				failedOrder = append(failedOrder, o.ID)
+			}
+			failedByID[o.ID] = append(failedByID[o.ID], o)
+		}
+	}
+	for i := range fnEv {
+		for _, o := range byFunc[fnEv[i].Name] {
+			if o.ExpectSat {
+				continue
+			}
+			fnEv[i].Obligations++
+			if o.Status == "discharged" {
+				fnEv[i].Discharged++
+			}
+		}
+	}
+	for _, u := range unsupported {
+		oc.undecided = append(oc.undecided, "unsupported: "+u)
+	}
+	if nObl == 0 {
+		oc.undecided = append(oc.undecided, "no obligations generated for "+prop)
+	}
+	// expected obligation counts (vacuity guard: a lost contract or function shows up as a drop)
+	if exp := loadExpected(verif); exp != nil {
+		if want, ok := exp[prop]; ok && nObl < want {
+			oc.undecided = append(oc.undecided, fmt.Sprintf("obligation count dropped: %d < expected %d", nObl, want))
+		}
+	}
+	// assumption lock
+	assumptions := e.assumptionList(prop, keys)
+
+	known := loadKnownFindings(verif)
+	replayDir := filepath.Join(verif, "out", "replay")
+	os.MkdirAll(replayDir, 0o755)
+	nKnown := 0
+	for _, id := range failedOrder {
+		obs := failedByID[id]
+		var kf *KnownFinding
+		for i := range known {
+			if known[i].Property == prop && known[i].Obligation == id && !known[i].Fixed {
+				kf = &known[i]
+			}
+		}
+		if kf != nil {
+			// the recorded witness must still reproduce on the real code
+			ok, detail := e.replayKnown(kf)
+			if ok {
+				fmt.Printf("KNOWN-FINDING: property=%s %s [obligation %s]\n", prop, kf.Summary, id)
+				oc.known = append(oc.known, id)
+				nKnown += len(obs)
+				continue
+			}
+			fmt.Printf("note: known finding for %s no longer reproduces with its recorded witness (%s); reporting as violation\n", id, detail)
+		}
+		rp := filepath.Join(replayDir, fmt.Sprintf("%s_%s.json", prop, safeName(id)))
+		found, wit := e.findFailingInput(prop, id, obs, *tier, seed)
+		writeReplay(rp, prop, id, obs, found, wit)
+		line := fmt.Sprintf("VIOLATION property=%s replay=%s", prop, rp)
+		if !found {
+			line += " no-failing-input-found"
+		}
+		fmt.Println(line)
+		oc.violations = append(oc.violations, id)
+	}
+	for _, u := range oc.undecided {
+		fmt.Printf("UNDECIDED property=%s reason=%s\n", prop, u)
+	}
+
+	// evidence
+	var samples []map[string]string
+	for i, o := range all {
+		if o.ExpectSat {
+			continue
+		}
+		if len(samples) < 6 && (i%(len(all)/6+1) == 0 || o.Status != "discharged") {
+			samples = append(samples, map[string]string{"obligation": o.ID, "goal": o.GoalText, "status": o.Status, "backend": o.Backend, "path": o.Path})
+		}
+	}
+	trusted := e.trustedBase(prop, keys)
+	bounded := []string{}
+	ev := map[string]interface{}{
+		"property_id": prop,
+		"tier":        *tier,
+		"seed":        seed,
+		"level":       "proof",
+		"coverage": map[string]interface{}{
+			"obligations":              nObl,
+			"discharged":               nDis,
+			"known_finding_obligations": nKnown,
+			"checker_cmd":              fmt.Sprintf("/verif/bin/govc check %s --tier %s", prop, *tier),
+			"trusted_base":             trusted,
+			"functions_under_contract": fnEv,
+			"by_backend":               sv.ByBackend,
+			"bounded":                  bounded,
+			"samples":                  samples,
+			"vacuity":                  map[string]int{"cover_queries": nCover, "satisfiable": nCovered},
+			"solver_timeout_s":         timeout,
+			"notes":                    append(e.Notes, gnotes...),
+			"explanation":              "obligations generated by govc from the typed AST of /repo on this run (contracts: //@ files under build tag verif), discharged by the SMT portfolio; 'discharged' counts obligations proved unsat-of-negation; obligations that fail only at a recorded known finding are counted under known_finding_obligations",
+		},
+		"assumptions":    assumptions,
+		"wall_s":         time.Since(start).Seconds(),
+		"violations":     len(oc.violations),
+		"undecided":      len(oc.undecided),
+		"known_findings": oc.known,
+	}
+	writeEvidence(verif, prop, ev)
+	fmt.Printf("%s tier=%s obligations=%d discharged=%d known=%d violations=%d undecided=%d wall=%.1fs\n", prop, *tier, nObl, nDis, len(oc.known), len(oc.violations), len(oc.undecided), time.Since(start).Seconds())
+	if len(oc.violations) > 0 {
+		return 1
+	}
+	if len(oc.undecided) > 0 {
+		return 3
+	}
+	return 0
+}
+
+func loadExpected(verif string) map[string]int {
+	data, err := os.ReadFile(filepath.Join(verif, "expected_obligations.json"))
+	if err != nil {
+		return nil
+	}
+	m := map[string]int{}
+	json.Unmarshal(data, &m)
+	return m
+}
+
+func writeEvidence(verif, prop string, ev map[string]interface{}) {
+	os.MkdirAll(filepath.Join(verif, "evidence"), 0o755)
+	data, _ := json.MarshalIndent(ev, "", " ")
+	os.WriteFile(filepath.Join(verif, "evidence", prop+".json"), data, 0o644)
+}
+
+func writeEvidenceUndecided(verif, prop, tier string, seed int, start time.Time, reason string) {
+	writeEvidence(verif, prop, map[string]interface{}{
+		"property_id": prop, "tier": tier, "seed": seed, "level": "other",
+		"coverage":    map[string]interface{}{"explanation": "UNDECIDED: " + reason},
+		"wall_s":      time.Since(start).Seconds(), "violations": 0, "undecided": 1,
+	})
+}
+
+func writeReplay(path, prop, id string, obs []*Obligation, found bool, witness interface{}) {
+	type obRec struct {
+		Path    string `json:"path"`
+		Pos     string `json:"position"`
+		Goal    string `json:"goal"`
+		Status  string `json:"status"`
+		Backend string `json:"backend"`
+		Output  string `json:"solver_output"`
+	}
+	var recs []obRec
+	for _, o := range obs {
+		out := o.Output
+		if len(out) > 6000 {
+			out = out[:6000] + "...[truncated]"
+		}
+		recs = append(recs, obRec{o.Path, fmt.Sprintf("%s:%d", shortPath(o.Pos.Filename), o.Pos.Line), o.GoalText, o.Status, o.Backend, out})
+	}
+	rec := map[string]interface{}{
+		"property": prop, "obligation": id, "failed_instances": recs,
+		"failing_input_found": found, "witness": witness,
+		"note": "a failed obligation is a violation of the property's proof on this tree; when failing_input_found is true the witness was replayed against the real code and reproduced the disagreement",
+	}
+	data, _ := json.MarshalIndent(rec, "", " ")
+	os.WriteFile(path, data, 0o644)
+}
+
+func cmdSelftest(args []string) int { return runSelftest(args) }
